@@ -866,3 +866,22 @@ Proof.
   destruct r as [alg fs]. cbn [fst snd]. intros Hl Ha Hf. unfold dec_record, enc_record. cbn [fst snd].
   rewrite <- app_assoc. rewrite get_string_sshstring by exact Ha. rewrite Hl, get_fields_enc by exact Hf. reflexivity.
 Qed.
+
+(* ------------------------------------------------------------------------------------------- *)
+(* which trailing whitespace the footer match tolerates: any run of blanks, tabs, CR, FF, VT after
+   the footer text on its line (so CRLF files), followed by any number of whitespace-only lines *)
+Lemma drop_blank_all ls : forallb all_ws ls = true -> drop_blank_lines ls = [].
+Proof.
+  induction ls as [|l ls IH]; intros H; [reflexivity|]. cbn in H. apply andb_true_iff in H as [Hl Hls].
+  cbn [drop_blank_lines]. rewrite Hl. apply IH, Hls.
+Qed.
+
+Theorem footer_trailing_whitespace footer ws blanks :
+  all_ws ws = true -> forallb all_ws blanks = true ->
+  find_footer footer ((footer ++ ws) :: blanks) = Some ([], []).
+Proof.
+  intros Hws Hb. cbn [find_footer].
+  assert (Hp : zprefix footer (footer ++ ws) = true) by (apply zprefix_spec; eexists; reflexivity).
+  rewrite Hp, skipn_app, Nat.sub_diag, skipn_all. cbn [skipn app andb]. rewrite Hws, drop_blank_all by exact Hb.
+  reflexivity.
+Qed.
